@@ -253,6 +253,35 @@ def long_node_lists():
     return out
 
 
+def landing_node_lists():
+    """Pieces whose first halving puts the new node exactly on top of a node that is already in
+    the list - same three points, a different object: the hairpin whose control points lie at
+    9 : -4 : 1 : 0 along one direction from its end node passes through that node at t = 1/2, and
+    if the node's outer handle is the mirror image (-1/2) the inserted node equals it in value.
+    Also the mirror case at the start node, other outer handles, and the hairpin alone, first,
+    last or in the middle of a list.  Whoever recognises nodes by their value stops (or starts)
+    at the wrong one."""
+    out = []
+    for d_x, d_y in ((2, 4), (4, 0), (0, -2), (-2, 2), (6, -2), (-4, -8)):
+        for o_x, o_y in ((0, 0), (10, 5)):
+            def rel(mult, d_x=d_x, d_y=d_y, o_x=o_x, o_y=o_y):
+                return (o_x + mult * d_x, o_y + mult * d_y)
+            plain_before = [(rel(20), rel(20), rel(16))]
+            plain_after = [(rel(-2), rel(-6), rel(-6))]
+            for outer in (-0.5, 0, 1, 0.5):
+                # ends on its own end node: the end node's outer handle is rel(outer)
+                hair_end = [(rel(9), rel(9), rel(-4)), (rel(1), rel(0), rel(outer))]
+                # starts on its own start node: the start node's incoming handle is rel(outer)
+                hair_start = [(rel(outer), rel(0), rel(1)), (rel(-4), rel(9), rel(9))]
+                for hair in (hair_end, hair_start):
+                    out.append(tuple(hair))
+                    out.append(tuple([(rel(12), rel(12), rel(11))] + hair[:1] + hair[1:]))
+                    out.append(tuple(hair + plain_after))
+                    out.append(tuple(plain_before + hair))
+                    out.append(tuple(plain_before + hair + plain_after))
+    return out
+
+
 def crowd_node_lists(thorough):
     """The same chained pattern at sizes around the powers of two a list-length threshold
     would pick (255..257, 511..513, 1025, 1300; thorough 4097): work done per block of
@@ -397,7 +426,7 @@ def _chunk(args):
     kind, items, flats = args
     part = core.Part()
     for item in items:
-        as_tuples = kind == "one_t"
+        as_tuples = kind in ("one_t", "raw_t")
         nodes = one_piece(item) if kind in ("one", "one_t") else \
             (two_pieces(item) if kind == "two" else item)
         if kind in ("needle", "deep"):
@@ -464,6 +493,9 @@ def run(ctx):
         jobs.append(("raw", [nodes], [2.0 ** 511, 2.0 ** 512, 1e200, 1e300, 1.7976931348623157e308]))
     for nodes in crowd_node_lists(ctx.thorough):
         jobs.append(("crowd", [nodes], [0.3, 1.0]))
+    for chunk in core.split(landing_node_lists(), 8):
+        jobs.append(("raw", chunk, [0.25, 0.05, 1.0]))
+        jobs.append(("raw_t", chunk, [0.25, 0.05, 1.0]))   # (x, y) tuples equal the inserted ones
     for chunk in core.split(ones[::ctx.pick(5, 1)], 16):
         jobs.append(("similar", chunk, [0.3, 1.0]))
     jobs.append(("needle", needle_node_lists(), None))
